@@ -172,8 +172,8 @@ func run(c tcase) string {
 		return "time token does not parse as RFC3339: " + perr.Error() + show()
 	}
 	if c.direct {
-		if !ts.Equal(c.instant.Truncate(time.Second)) {
-			return fmt.Sprintf("time %q is not the record's instant %s to the second", toks[0].Val, c.instant.Format(time.RFC3339Nano)) + show()
+		if _, got := ts.Zone(); !ts.Equal(c.instant.Truncate(time.Second)) || got != zoneOffset(c.instant) {
+			return fmt.Sprintf("time %q is not the record's time %s to the second, in the zone the record carries", toks[0].Val, c.instant.Format(time.RFC3339Nano)) + show()
 		}
 	} else if ts.Before(before.Truncate(time.Second)) || ts.After(after) {
 		return fmt.Sprintf("time %q outside [%s, %s]", toks[0].Val, before.Format(time.RFC3339Nano), after.Format(time.RFC3339Nano)) + show()
@@ -386,6 +386,8 @@ func TestLinesFromSeveralLoggers(t *testing.T) {
 		})
 	})
 }
+
+func zoneOffset(t time.Time) int { _, off := t.Zone(); return off }
 
 func TestExhaustiveShortStrings(t *testing.T) {
 	n := enumerate(t, "string", func(add func(string) bool) {
